@@ -15,7 +15,7 @@ PARSER_SINKS = ('luaL_loadstring', 'uscxml::luaEval', 'uscxml::PromelaParser::Pr
 
 # issues whose condition makes the engines or transpilers dereference a missing state or fail at init for structural
 # reasons: must be FATAL
-MUST_BE_FATAL = ['non-existant target state', 'invalid target state', 'has no default transition', 'Duplicate state', "has no 'id' attribute",
+MUST_BE_FATAL = ['non-existant target state', 'invalid target state', 'has no default transition', 'Duplicate state',
                  'Target states cause illegal configuration', 'references non-child state', 'unknown datamodel']
 
 
@@ -209,6 +209,38 @@ def run(rep, tier):
             raise AnalysisBroken('issue message containing "%s" not found' % pat)
         for m, sv, n in hits:
             rep.check(sv == 'USCXML_ISSUE_FATAL', 'R19.3', pat, locstr(n), '"%s" is raised as %s' % (m[:70], sv))
+
+    # ---- R19.13 structural preconditions of the engines that the validator must judge (closed table; one issue each)
+    rep.rule('R19.13', 'every structural precondition the engines rely on has a fatal issue: an <initial> / history default transition has a target, an initial attribute is not empty, a history default transition does not target a history, ids of an invoked inline machine are judged per machine')
+    REQUIRED = [('initial transition without target', r'[Ii]nitial transition.*(no|without|requires|must have).*target'),
+                ('history default transition without target', r'Transition in .*history.*has no target'),
+                ('empty initial attribute', r'[Ii]nitial attribute.*(empty|no state)'),
+                ('history default transition targets a history', r'history.*target.*history|default.*history.*history')]
+    for what, pat in REQUIRED:
+        hits = [(m, sv, n) for m, sv, n in issues if re.search(pat, m)]
+        rep.check(bool(hits) and all(sv == 'USCXML_ISSUE_FATAL' for _, sv, _ in hits), 'R19.13', what, val.where(), 'the validator %s for: %s' % (
+            'has a fatal issue' if hits else 'has NO issue', what) + ('' if hits else ' -- such a document passes validation and the engines end up with a compound state without active child / an empty configuration'))
+    # ids are judged per machine: the node sets are assembled without descending into nested <scxml>, or the id table is filtered
+    asm = next((f_ for f_ in fb.funcs.values() if f_.q.endswith('assembleNodeSets')), None)
+    per_machine = asm is not None and (any(x['k'] == 'StringLiteral' and x.get('str') == 'scxml' for x in asm.walk()) or any(x.get('callee', {}).get('q', '').endswith('areFromSameMachine') for x in asm.walk()))
+    seen_filtered = any(x.get('callee', {}).get('q', '').endswith('areFromSameMachine') for a_ in val.walk() if a_['k'] == 'IfStmt' and any(
+        y['k'] == 'DeclRefExpr' and y.get('ref', {}).get('name') == 'seenStates' for y in sub(a_)) for x in sub(a_['c'][0]))
+    rep.check(per_machine or seen_filtered, 'R19.13', 'ids per machine', asm.where() if asm else val.where(), 'state ids of an inline invoked <scxml> %s' % (
+        'are kept apart from the parent machine' if per_machine or seen_filtered else 'are collected into the parent\'s id table: a valid child that reuses an id draws "Duplicate state" fatals, and a parent transition that targets an id existing only in the child passes'))
+
+    # ---- R19.14 validation cost: no check enumerates all configurations of the chart
+    rep.rule('R19.14', 'validation terminates on every document within memory: no check of the validator enumerates all legal configurations of the chart (exponential in the number of parallel regions)')
+    enum_calls = [n for n in val.walk() if n.get('callee', {}).get('q', '').endswith('getAllConfigurations')]
+    rep.check(not enum_calls, 'R19.14', 'forInterpreter|getAllConfigurations', locstr(enum_calls[0]) if enum_calls else val.where(), 'the validator %s' % (
+        'does not enumerate configurations' if not enum_calls else 'calls getAllConfigurations (for an INFO-level "useless history" hint): a valid parallel with 22 two-state regions and one history needs about 8 GB and ends in std::bad_alloc'))
+
+    # ---- R19.12 what the recommendation allows is not fatal
+    rep.rule('R19.12', 'no fatal issue for what the recommendation allows: the id attribute of <state> is optional (engines and back-ends run such charts), so its absence is not reported as FATAL')
+    hits = [(m, sv, n) for m, sv, n in issues if "has no 'id' attribute" in m]
+    if not hits:
+        rep.ok('R19.12', 'missing id', 'no issue is raised for a missing id')
+    for m, sv, n in hits:
+        rep.check(sv != 'USCXML_ISSUE_FATAL', 'R19.12', 'missing id', locstr(n), '"%s" is raised as %s%s' % (m[:60], sv, '' if sv != 'USCXML_ISSUE_FATAL' else ': <state><transition target="f"/></state> is legal, runs in both engines and transpiles, but is rejected'))
 
     # ---- R19.4
     total_ok = 0
